@@ -360,6 +360,19 @@ def _one(e, case, path, op, handle, commit, fault, log):
                    pending=caller is not None)
             if caller is not None:
                 caller.rollback()
+        # a reader view on the file name, created and read before the load:
+        # a view is a query, not a snapshot - it shows the rows written when
+        # it is read again afterwards
+        early = None
+        if not pending_rows and not mine and not attach:
+            early = e.fromdb(tpath, 'select %s from "%s" order by rowid'
+                             % (', '.join('"%s"' % c for c in cols),
+                                _TNAME[0]))
+            got0 = [tuple(r) for r in iter(early)]
+            if canon_rows(got0) != canon_rows([tuple(cols)] + model):
+                raise _Bad('fromdb-differs', '%s: fromdb before the load '
+                           'returns %r, expected %r'
+                           % (what, got0, [tuple(cols)] + model))
         # ---- the load under test ---------------------------------------
         rows = [list(r) for r in table]
         expect_exc = None
@@ -440,6 +453,19 @@ def _one(e, case, path, op, handle, commit, fault, log):
         elif commit:
             model = new
             _check(tpath, cols, model, what + ' [after the call]')
+            if early is not None:
+                try:
+                    got1 = [tuple(r) for r in iter(early)]
+                except Exception as ex:
+                    raise _Bad('fromdb-differs', '%s: a fromdb view on the '
+                               'file name that was read before the load '
+                               'raises %s afterwards: %s'
+                               % (what, type(ex).__name__, ex))
+                if canon_rows(got1) != canon_rows([tuple(cols)] + model):
+                    raise _Bad('fromdb-differs', '%s: a fromdb view on the '
+                               'file name that was read before the load '
+                               'returns %r afterwards, the table holds %r'
+                               % (what, got1, [tuple(cols)] + model))
             # and fromdb returns the same rows
             rd = sqlite3.connect(tpath)
             try:
